@@ -653,10 +653,20 @@ class StubsBase:
     def num_binop(self, op, a, b, ctx):
         both_int = V.is_intlike(a) and V.is_intlike(b)
         if getattr(ctx, "mu", False) and not both_int and isinstance(op, (ast.Add, ast.Sub, ast.Mult, ast.Div)):
-            if isinstance(op, ast.Add):
-                return self.mu_round(ctx, V.R(V.Z(V.add(a, b))) if is_sym(V.add(a, b)) else V.add(a, b))
-            if isinstance(op, ast.Sub):
-                return self.mu_round(ctx, V.R(V.Z(V.sub(a, b))) if is_sym(V.sub(a, b)) else V.sub(a, b))
+            if isinstance(op, (ast.Add, ast.Sub)):
+                ex = V.add(a, b) if isinstance(op, ast.Add) else V.sub(a, b)
+                r = self.mu_round(ctx, V.R(V.Z(ex)) if is_sym(ex) else ex)
+                if is_sym(r) and is_sym(ex):
+                    # sound facts about binary64 addition of two floats p - q (q = -b for a sum): exact when an
+                    # operand is zero, and exact when q/2 <= p <= 2q (Sterbenz' lemma; holds with subnormals)
+                    p_ = V.R(V.Z(a))
+                    q_ = V.R(V.Z(V.neg(b) if isinstance(op, ast.Add) else b))
+                    exz = V.R(V.Z(ex))
+                    ctx.assume(z3.Implies(z3.Or(p_ == 0, q_ == 0), r == exz), why="M_u: adding zero is exact")
+                    ctx.assume(z3.Implies(z3.Or(z3.And(q_ >= 0, q_ <= 2 * p_, p_ <= 2 * q_), z3.And(q_ <= 0, q_ >= 2 * p_, p_ >= 2 * q_)), r == exz),
+                               why="M_u: Sterbenz lemma (difference of two floats within a factor two of each other is exact)")
+                    ctx.note("model-M_u side facts: x + 0 exact; Sterbenz lemma")
+                return r
             if isinstance(op, ast.Mult):
                 return self.mu_round(ctx, V.R(V.Z(V.mul(a, b))) if is_sym(V.mul(a, b)) else V.mul(a, b))
             if ctx.branch(V.eq(b, 0), "division by zero"):
